@@ -402,6 +402,16 @@ def run_cell(cell, seed):
             # only state that EVOLVED since construction counts (constructor arguments of the receiving model may legitimately differ)
             evolved = set(plain_attribute_diff(model, make(spec, 0, seed)[0]))
             attr_diff = {k: v for k, v in attr_diff.items() if k in evolved}
+            if not mech.startswith("state_dict"):
+                # a copy / unpickled object is in the same mode, sub-module by sub-module, and learns the same parameters
+                mb_ = dict(restored.named_modules())
+                for nm, mo in model.named_modules():
+                    if nm in mb_ and mb_[nm].training != mo.training:
+                        attr_diff[(nm + "." if nm else "") + "training"] = (mo.training, mb_[nm].training)
+                pb_ = dict(restored.named_parameters())
+                for nm, pa_ in model.named_parameters():
+                    if nm in pb_ and pb_[nm].requires_grad != pa_.requires_grad:
+                        attr_diff[nm + ".requires_grad"] = (pa_.requires_grad, pb_[nm].requires_grad)
             a = observables(model, spec, X, y, Xs)
             b = observables(restored, spec, X, y, Xs)
             ran += 1
